@@ -60,7 +60,7 @@ for cap in (2, 4, 8):
          "h_deinit", tier="quick" if cap <= 4 else "thorough", timeout=300 if cap <= 4 else 600, bound=bound(cap), defines=D(cap), unwind=max(cap, KOF[cap] + 1) + 2,
          functions=["janet_symbol_deinit", "janet_symcache_findmem"],
          assumes=[UNIV, WF, EXITS, "precondition: the swept symbol is the interned object of its text, or no live entry carries its text (every symbol block the collector sweeps was interned by janet_symbol / janet_symbol_gen)"],
-         mutants=DEI + [M_NULL], **S)
+         mutants=DEI + ([M_NULL] if cap >= 4 else []), **S)
 
 # ------------------------------------------------------------------ 2. resize under its contract
 RSZ = [mut("entry-not-stored", "            *bucket = x;\n", "", "no entry lost|stays interned"),
@@ -68,7 +68,7 @@ RSZ = [mut("entry-not-stored", "            *bucket = x;\n", "", "no entry lost|
        mut("deleted-not-reset", "    janet_vm.cache_deleted = 0;\n    /* Add all", "    /* Add all", "cache_deleted == 0")]
 NEWMAX = {2: 4, 4: 8, 8: 8}              # capacity 8: growth to 16 not attempted within 10 min (cf. tab.rehash.cap8.to16)
 for cap in (2, 4, 8):
-    groups = [(2, 4)] + ([(8, 8)] if NEWMAX[cap] >= 8 else [])
+    groups = [(2, 4)] + ([(8, 8)] if NEWMAX[cap] >= 8 and cap <= 4 else [])      # 8 -> 8: timeout after 600 s, not delivered
     for lo, hi in groups:
         unit("sc.resize.cap%d.to%s" % (cap, "%d" % hi if lo == hi else "%d-%d" % (lo, hi)),
              "janet_cache_resize under its contract, from EVERY well-formed cache and every new capacity that is a power of two > cache_count: new exact block without tombstones, the SAME set of interned objects "
@@ -117,7 +117,8 @@ for cap in (2, 4, 8):
              defines=D(cap, k, "-DSY_NEWMAX=%d" % NEWMAX[cap], "-DSY_PUT_COUNT=%d" % c), unwind=max(size, cap, k + 1) + 2,
              functions=["janet_symcache_put", "janet_symcache_findmem"], replace_calls=["janet_cache_resize:sy_resize_contract"],
              assumes=[UNIV, WF, EXITS, "janet_cache_resize replaced by its contract (proved of the real function by units sc.resize.*): requires I1..I4 and a power-of-two capacity > cache_count; ensures a new exact block without "
-                      "tombstones holding the same set of interned objects, cache_deleted == 0, cache_count unchanged, old block freed"],
+                      "tombstones holding the same set of interned objects, cache_deleted == 0, cache_count unchanged, old block freed"] +
+                     (["the instance old capacity 8 -> new capacity 8 of the resize contract is ASSUMED here: unit sc.resize.cap8.to8 did not finish within 600 s (proved: old capacity 2 and 4 to every size <= 8, old capacity 8 to sizes 2 and 4)"] if cap == 8 and size == 8 else []),
              mutants=[P_CNT, P_STALE] + ([P_LOAD] if cap // 2 + 1 - c > 0 else []), **S)
 
 # ------------------------------------------------------------------ 4. janet_symbol, lookup path
